@@ -35,6 +35,15 @@ const (
 	sigLayout    = "c10-layout-structure-changed"
 	sigWrite     = "c10-subset-not-writable"
 	sigReread    = "c10-subset-changes-on-reread"
+	// fixed finding (fixes/C01-blank-glyf-table.diff): Read rejected a font
+	// whose glyf table has length 0
+	sigAllBlank = "c10-all-blank-subset-unreadable"
+	// fixed finding (fixes/C10-mac-cmap-codes.diff): the codes of a Macintosh
+	// cmap subtable were replaced by their Unicode translations
+	sigMacCMap = "c10-mac-cmap-codes-translated"
+	// an undecodable cmap subtable (format 2, 8, 10, 13, 14) is neither
+	// dropped nor refused
+	sigCMapKept = "c10-undecodable-cmap-kept"
 	// open finding: CFF cannot encode "glyph k has a code, glyph j<k has none"
 	sigEncContig = "cff-subset-builtin-encoding-not-contiguous"
 )
@@ -43,31 +52,41 @@ const (
 // duplicate-free list starting with 0, ids in range, every reference of the
 // font in range, only supported layout data.
 func inDomain(d *Desc, glyphs []int) bool {
+	in, mayRefuse := domain(d, glyphs)
+	return in && !mayRefuse
+}
+
+// domain: in = the clauses of C10 can be asked of this case; mayRefuse = the
+// font carries data the subsetter does not declare supported (GSUB 1.2 / 2.1 /
+// 3.1 subtables, a cmap subtable of format 0): Subset may refuse it loudly (a
+// panic), but if it returns a subset every clause must hold of it - silently
+// losing the rules or the characters is not acceptable.
+func domain(d *Desc, glyphs []int) (in, mayRefuse bool) {
 	n := len(d.Glyphs)
 	if len(glyphs) == 0 || glyphs[0] != 0 {
-		return false
+		return false, false
 	}
 	seen := map[int]bool{}
 	for _, g := range glyphs {
 		if g < 0 || g >= n || seen[g] {
-			return false
+			return false, false
 		}
 		seen[g] = true
 	}
 	// a GSUB/GPOS table without any lookup (hence without features) carries no
 	// layout data; how such degenerate tables are written is C08's subject
 	if (!d.NoGsub && len(d.Gsub) == 0) || (!d.NoGpos && len(d.Gpos) == 0) {
-		return false
+		return false, false
 	}
 	ok := func(g int) bool { return g >= 0 && g < n }
 	for _, g := range d.Glyphs {
 		for _, c := range g.Comps {
 			if !ok(c) {
-				return false
+				return false, false
 			}
 		}
 		if d.Kind != "glyf" && (g.FD < 0 || g.FD >= len(d.Privs)) {
-			return false
+			return false, false
 		}
 	}
 	for _, lk := range d.Gsub {
@@ -76,27 +95,46 @@ func inDomain(d *Desc, glyphs []int) bool {
 			case "s1":
 				for _, g := range s.Cov {
 					if !ok(g) || !ok((g+s.Delta)%65536) {
-						return false
+						return false, false
 					}
 				}
 			case "lig":
 				for _, set := range s.Sets {
 					if !ok(set.First) {
-						return false
+						return false, false
 					}
 					for _, lg := range set.Ligs {
 						if !ok(lg.Out) {
-							return false
+							return false, false
 						}
 						for _, x := range lg.In {
 							if !ok(x) {
-								return false
+								return false, false
 							}
 						}
 					}
 				}
+			case "s2":
+				mayRefuse = true
+				for _, e := range s.S2 {
+					if !ok(e[0]) || !ok(e[1]) {
+						return false, false
+					}
+				}
+			case "mult", "alt":
+				mayRefuse = true
+				for _, e := range s.Multi {
+					if !ok(e.G) {
+						return false, false
+					}
+					for _, x := range e.Outs {
+						if !ok(x) {
+							return false, false
+						}
+					}
+				}
 			default:
-				return false
+				return false, false
 			}
 		}
 	}
@@ -104,17 +142,28 @@ func inDomain(d *Desc, glyphs []int) bool {
 		for _, st := range lk {
 			for _, k := range st {
 				if !ok(k.L) || !ok(k.R) {
-					return false
+					return false, false
 				}
 			}
 		}
 	}
-	return true
+	for _, c := range d.CMaps {
+		switch c.Fmt {
+		case 4, 6, 12:
+		case 0:
+			mayRefuse = true
+		case 2, 8, 10, 13, 14:
+			// not decodable: the cmap clause asks that the subtable is dropped
+		default:
+			return false, false
+		}
+	}
+	return true, mayRefuse
 }
 
 type rule struct {
 	in  []glyph.ID
-	out glyph.ID
+	out []glyph.ID
 }
 
 // gsubRules lists the substitution rules of the real GSUB table.
@@ -128,13 +177,25 @@ func gsubRules(info *gtab.Info) []rule {
 			switch s := s.(type) {
 			case *gtab.Gsub1_1:
 				for g := range s.Cov {
-					rr = append(rr, rule{[]glyph.ID{g}, g + s.Delta})
+					rr = append(rr, rule{[]glyph.ID{g}, []glyph.ID{g + s.Delta}})
+				}
+			case *gtab.Gsub1_2:
+				for g, idx := range s.Cov {
+					rr = append(rr, rule{[]glyph.ID{g}, []glyph.ID{s.SubstituteGlyphIDs[idx]}})
+				}
+			case *gtab.Gsub2_1:
+				for g, idx := range s.Cov {
+					rr = append(rr, rule{[]glyph.ID{g}, s.Repl[idx]})
+				}
+			case *gtab.Gsub3_1:
+				for g, idx := range s.Cov {
+					rr = append(rr, rule{[]glyph.ID{g}, s.Alternates[idx]})
 				}
 			case *gtab.Gsub4_1:
 				for g, idx := range s.Cov {
 					for _, lg := range s.Repl[idx] {
 						in := append([]glyph.ID{g}, lg.In...)
-						rr = append(rr, rule{in, lg.Out})
+						rr = append(rr, rule{in, []glyph.ID{lg.Out}})
 					}
 				}
 			}
@@ -161,9 +222,13 @@ func closure(f *sfnt.Font, list []glyph.ID) (r1, r2 map[glyph.ID]bool) {
 					all = false
 				}
 			}
-			if all && !r1[r.out] {
-				r1[r.out] = true
-				changed = true
+			if all {
+				for _, o := range r.out {
+					if !r1[o] {
+						r1[o] = true
+						changed = true
+					}
+				}
 			}
 		}
 	}
@@ -214,8 +279,15 @@ func sameGlyf(a, b *glyf.Glyph) bool {
 	return false
 }
 
+// cmapEntries reads a cmap subtable as it stands: code -> glyph.  (Table.Get
+// translates the codes of Macintosh subtables to Unicode; what a code means
+// is not the subsetter's business, it has to keep the codes.)
 func cmapEntries(t cmap.Table, key cmap.Key) (map[uint32]glyph.ID, error) {
-	st, err := t.Get(key)
+	raw, ok := t[key]
+	if !ok {
+		return nil, fmt.Errorf("no such subtable")
+	}
+	st, err := rawCMap(raw)
 	if err != nil {
 		return nil, err
 	}
@@ -228,6 +300,12 @@ func cmapEntries(t cmap.Table, key cmap.Key) (map[uint32]glyph.ID, error) {
 	case cmap.Format12:
 		for c, g := range m {
 			res[c] = g
+		}
+	case *cmap.Format0:
+		for c, g := range m.Data {
+			if g != 0 {
+				res[uint32(c)] = glyph.ID(g)
+			}
 		}
 	default:
 		return nil, fmt.Errorf("unexpected cmap subtable type %T", st)
@@ -353,13 +431,17 @@ func sorted(m map[glyph.ID]bool) []glyph.ID {
 // oracle returns ("", "") when the property holds on this case (or the case
 // is outside the property's domain).
 func oracle(sel string, d *Desc, glyphs []int, res *implResult) (fail, sig string) {
-	if !inDomain(d, glyphs) {
+	in, mayRefuse := domain(d, glyphs)
+	if !in {
 		return "", ""
 	}
 	if res.obs == "hang" {
 		return "Subset did not return within 20s", sigPanic
 	}
 	if res.paniced {
+		if mayRefuse {
+			return "", "" // a loud refusal of data the subsetter does not support
+		}
 		return "Subset panics: " + res.panicMsg, sigPanic
 	}
 	defer func() {
@@ -389,21 +471,41 @@ func oracle(sel string, d *Desc, glyphs []int, res *implResult) (fail, sig strin
 	switch so := s.Outlines.(type) {
 	case *glyf.Outlines:
 		fo := f.Outlines.(*glyf.Outlines)
+		// Several original glyphs can carry the same outline data (all blank
+		// glyphs do): among those, prefer the one with the same width and
+		// name, not yet in the subset, and needed.
+		taken := map[glyph.ID]bool{}
+		for _, g := range list {
+			taken[g] = true
+		}
 		for i := len(list); i < n; i++ {
-			found := -1
+			best, bestScore := -1, 99
 			for j := range fo.Glyphs {
-				if sameGlyf(so.Glyphs[i], fo.Glyphs[j]) {
-					if found >= 0 {
-						found = -2
-						break
-					}
-					found = j
+				if !sameGlyf(so.Glyphs[i], fo.Glyphs[j]) {
+					continue
+				}
+				score := 0
+				if i < len(so.Widths) && j < len(fo.Widths) && so.Widths[i] != fo.Widths[j] {
+					score += 4
+				}
+				if so.Names != nil && fo.Names != nil && i < len(so.Names) && j < len(fo.Names) && so.Names[i] != fo.Names[j] {
+					score += 4
+				}
+				if taken[glyph.ID(j)] {
+					score += 2
+				}
+				if !r2[glyph.ID(j)] {
+					score++
+				}
+				if score < bestScore {
+					best, bestScore = j, score
 				}
 			}
-			if found < 0 {
-				return fmt.Sprintf("appended glyph %d matches %d original outlines", i, map[int]int{-1: 0, -2: 2}[found]), sigExtras
+			if best < 0 {
+				return fmt.Sprintf("appended glyph %d matches no original outline", i), sigExtras
 			}
-			oldOf[i] = glyph.ID(found)
+			oldOf[i] = glyph.ID(best)
+			taken[glyph.ID(best)] = true
 		}
 	case *cff.Outlines:
 		fo := f.Outlines.(*cff.Outlines)
@@ -429,6 +531,17 @@ func oracle(sel string, d *Desc, glyphs []int, res *implResult) (fail, sig strin
 			return fmt.Sprintf("original glyph %d occurs twice in the subset", g), sigExtras
 		}
 		newGid[g] = glyph.ID(i)
+	}
+
+	// --- clause: every composite reference leads to the same component as
+	// before.  Stated on what the reference *leads to* (outline data or
+	// blankness, advance width, name of the referenced glyph), not on glyph
+	// numbers: a reference re-pointed to another glyph (say glyph 0, which is
+	// always there) is noticed whether or not that glyph is retained.
+	if so, ok := s.Outlines.(*glyf.Outlines); ok {
+		if msg := componentsIdentical(f.Outlines.(*glyf.Outlines), so, oldOf, "in memory"); msg != "" {
+			return msg, sigComposite
+		}
 	}
 
 	// --- clause: extras are exactly what is needed
@@ -518,8 +631,30 @@ func oracle(sel string, d *Desc, glyphs []int, res *implResult) (fail, sig strin
 
 	if sel == "font" {
 		// --- clause: cmap exact
-		if (f.CMapTable == nil) != (s.CMapTable == nil) || len(f.CMapTable) != len(s.CMapTable) {
-			return fmt.Sprintf("original has %d cmap subtables, subset has %d", len(f.CMapTable), len(s.CMapTable)), sigCMap
+		// subtables the library cannot decode (format 2, 8, 10, 13, 14) cannot
+		// be re-keyed: they must be gone
+		decodable := 0
+		for key := range f.CMapTable {
+			if _, err := cmapEntries(f.CMapTable, key); err == nil {
+				decodable++
+			} else if _, kept := s.CMapTable[key]; kept {
+				return fmt.Sprintf("cmap subtable %v cannot be decoded (%v) but the subset carries a subtable with this key", key, err), sigCMapKept
+			}
+		}
+		for key := range f.CMapTable {
+			if _, err := cmapEntries(f.CMapTable, key); err != nil {
+				continue
+			}
+			if _, ok := s.CMapTable[key]; !ok {
+				sig := sigCMap
+				if key.PlatformID == 1 {
+					sig = sigMacCMap
+				}
+				return fmt.Sprintf("cmap subtable %v missing from the subset", key), sig
+			}
+		}
+		if (f.CMapTable == nil) != (s.CMapTable == nil) || decodable != len(s.CMapTable) {
+			return fmt.Sprintf("original has %d decodable cmap subtables, subset has %d", decodable, len(s.CMapTable)), sigCMap
 		}
 		listed := map[glyph.ID]glyph.ID{}
 		for i, g := range list {
@@ -541,15 +676,23 @@ func oracle(sel string, d *Desc, glyphs []int, res *implResult) (fail, sig strin
 				ng, kept := listed[g]
 				got, has := nm[c]
 				if kept && (!has || got != ng) {
-					return fmt.Sprintf("cmap %v: U+%04X mapped to glyph %d (retained as %d) but the subset maps it to %d (present: %v)", key, c, g, ng, got, has), sigCMap
+					sig := sigCMap
+					if key.PlatformID == 1 && c >= 0x80 {
+						sig = sigMacCMap
+					}
+					return fmt.Sprintf("cmap %v: code 0x%04X mapped to glyph %d (retained as %d) but the subset maps it to %d (present: %v)", key, c, g, ng, got, has), sig
 				}
 				if !kept && has && g != 0 {
-					return fmt.Sprintf("cmap %v: U+%04X mapped to glyph %d, which is not retained, but the subset maps it to %d", key, c, g, got), sigCMap
+					return fmt.Sprintf("cmap %v: code 0x%04X mapped to glyph %d, which is not retained, but the subset maps it to %d", key, c, g, got), sigCMap
 				}
 			}
 			for c, got := range nm {
 				if _, has := om[c]; !has {
-					return fmt.Sprintf("cmap %v: U+%04X is mapped (to %d) only in the subset", key, c, got), sigCMap
+					sig := sigCMap
+					if key.PlatformID == 1 {
+						sig = sigMacCMap
+					}
+					return fmt.Sprintf("cmap %v: code 0x%04X is mapped (to %d) only in the subset", key, c, got), sig
 				}
 			}
 		}
@@ -630,13 +773,73 @@ func oracle(sel string, d *Desc, glyphs []int, res *implResult) (fail, sig strin
 
 	// --- clause: the subset can be written and read back (asked only of
 	// fonts in the domain of C01: the original itself survives Write/Read)
-	if fail, _ := writeRead(d, f); fail != "" {
+	if _, fail, _ := writeRead(d, f); fail != "" {
 		return "", ""
 	}
-	return writeRead(d, s)
+	back, fail, sig := writeRead(d, s)
+	if fail != "" {
+		return fail, sig
+	}
+	// ... and in the re-read subset every composite reference still leads to
+	// the component the original referred to
+	if bo, ok := back.Outlines.(*glyf.Outlines); ok {
+		fo := f.Outlines.(*glyf.Outlines)
+		if len(bo.Glyphs) != n {
+			return fmt.Sprintf("the re-read subset has %d glyphs instead of %d", len(bo.Glyphs), n), sigReread
+		}
+		if msg := componentsIdentical(fo, bo, oldOf, "after Write/Read of the subset"); msg != "" {
+			return msg, sigComposite
+		}
+	}
+	return "", ""
 }
 
-func writeRead(d *Desc, s *sfnt.Font) (fail, sig string) {
+// glyphIdentity compares what a component reference leads to: blankness,
+// outline data (component glyph numbers aside), advance width, name.
+func glyphIdentity(fo *glyf.Outlines, oc glyph.ID, so *glyf.Outlines, nc glyph.ID) string {
+	if int(nc) >= len(so.Glyphs) {
+		return fmt.Sprintf("a glyph the subset does not have (%d)", nc)
+	}
+	a, b := fo.Glyphs[oc], so.Glyphs[nc]
+	switch {
+	case a == nil && b != nil:
+		return fmt.Sprintf("new glyph %d, which has an outline, while original glyph %d is blank", nc, oc)
+	case a != nil && b == nil:
+		return fmt.Sprintf("new glyph %d, which is blank, while original glyph %d has an outline", nc, oc)
+	case !sameGlyf(a, b):
+		return fmt.Sprintf("new glyph %d, whose outline is not that of original glyph %d", nc, oc)
+	}
+	if int(nc) >= len(so.Widths) || so.Widths[nc] != fo.Widths[oc] {
+		return fmt.Sprintf("new glyph %d, whose advance width differs from that of original glyph %d (%d)", nc, oc, fo.Widths[oc])
+	}
+	if fo.Names != nil && so.Names != nil && (int(nc) >= len(so.Names) || so.Names[nc] != fo.Names[oc]) {
+		return fmt.Sprintf("new glyph %d, whose name is not %q (original glyph %d)", nc, fo.Names[oc], oc)
+	}
+	return ""
+}
+
+func componentsIdentical(fo, so *glyf.Outlines, oldOf []glyph.ID, when string) string {
+	for i, g := range oldOf {
+		if i >= len(so.Glyphs) || int(g) >= len(fo.Glyphs) {
+			continue
+		}
+		oc, nc := fo.Glyphs[g].Components(), so.Glyphs[i].Components()
+		if len(oc) != len(nc) {
+			return fmt.Sprintf("%s: new glyph %d has %d components, original glyph %d has %d", when, i, len(nc), g, len(oc))
+		}
+		for k := range oc {
+			if int(oc[k]) >= len(fo.Glyphs) {
+				continue
+			}
+			if msg := glyphIdentity(fo, oc[k], so, nc[k]); msg != "" {
+				return fmt.Sprintf("%s: component %d of new glyph %d (original glyph %d) referred to original glyph %d and now leads to %s", when, k, i, g, oc[k], msg)
+			}
+		}
+	}
+	return ""
+}
+
+func writeRead(d *Desc, s *sfnt.Font) (back *sfnt.Font, fail, sig string) {
 	var buf bytes.Buffer
 	var werr error
 	var wpanic any
@@ -645,15 +848,14 @@ func writeRead(d *Desc, s *sfnt.Font) (fail, sig string) {
 		_, werr = s.Write(&buf)
 	}()
 	if wpanic != nil {
-		return fmt.Sprint("Write of the subset panics: ", wpanic), sigWrite
+		return nil, fmt.Sprint("Write of the subset panics: ", wpanic), sigWrite
 	}
 	if werr != nil {
 		if strings.Contains(werr.Error(), "encoded glyphs not contiguous") && encodingHasGap(s) {
-			return "Write of the subset fails: " + werr.Error(), sigEncContig
+			return nil, "Write of the subset fails: " + werr.Error(), sigEncContig
 		}
-		return "Write of the subset fails: " + werr.Error(), sigWrite
+		return nil, "Write of the subset fails: " + werr.Error(), sigWrite
 	}
-	var back *sfnt.Font
 	var rerr error
 	func() {
 		defer func() {
@@ -664,7 +866,19 @@ func writeRead(d *Desc, s *sfnt.Font) (fail, sig string) {
 		back, rerr = sfnt.Read(bytes.NewReader(buf.Bytes()))
 	}()
 	if rerr != nil {
-		return "the written subset cannot be read back: " + rerr.Error(), sigReread
+		if o, ok := s.Outlines.(*glyf.Outlines); ok && strings.Contains(rerr.Error(), "no TrueType/OpenType glyph data found") {
+			allBlank := true
+			for _, g := range o.Glyphs {
+				if g != nil {
+					allBlank = false
+				}
+			}
+			if allBlank {
+				// every retained glyph is blank: the glyf table has length 0
+				return nil, "the written subset (all of whose glyphs are blank) cannot be read back: " + rerr.Error(), sigAllBlank
+			}
+		}
+		return nil, "the written subset cannot be read back: " + rerr.Error(), sigReread
 	}
 	a, b := Project(s), Project(back)
 	// what a round trip does not keep for any font (not a matter of subsetting)
@@ -698,9 +912,9 @@ func writeRead(d *Desc, s *sfnt.Font) (fail, sig string) {
 	}
 	la, lb := CaseLine("font", a, nil, nil), CaseLine("font", b, nil, nil)
 	if la != lb {
-		return "subset changes when written and read back:\n  before: " + la + "\n  after:  " + lb, sigReread
+		return nil, "subset changes when written and read back:\n  before: " + la + "\n  after:  " + lb, sigReread
 	}
-	return "", ""
+	return back, "", ""
 }
 
 // encodingHasGap: some glyph k>=1 has a code while a glyph 1<=j<k has none.
@@ -729,7 +943,14 @@ func encodingHasGap(s *sfnt.Font) bool {
 
 // nontrivial: see the rule in Gen.
 func nontrivial(sel string, d *Desc, glyphs []int, res *implResult) (bool, []string) {
-	var labels []string
+	labels := roleLabels(d, glyphs)
+	if _, mayRefuse := domain(d, glyphs); mayRefuse {
+		if res.paniced {
+			labels = append(labels, "unsupported-data:refused-loudly")
+		} else {
+			labels = append(labels, "unsupported-data:handled")
+		}
+	}
 	if res.paniced {
 		return false, append(labels, "impl:panic")
 	}
